@@ -1,21 +1,47 @@
 """Process crashes of W-STORE (DESIGN.md section 2.6).
 
-crash_in_process: the pipeline process dies at a step boundary of the simulation.  Between two
+crash_in_process -- the pipeline process dies at a *step boundary* of the simulation.  Between two
 simulation steps no DAWGIE code is in the middle of a file operation (pipeline code runs atomically
-inside a step, client threads are parked at socket operations) and dbm.dumb keeps no file open
-between calls, so the on-disk state at that instant IS what a SIGKILL would leave: the directory
-is copied, every handle of the dead process is dropped without commit, and the next incarnation
-opens the copy.
+inside a step, client threads are parked at socket operations) and dbm.dumb keeps no file open between
+calls, so the on-disk state at that instant IS what a SIGKILL would leave: the directory is copied,
+every handle of the dead process is dropped without commit, and the next incarnation opens the copy.
 
-enumerate_updates: crash at every I/O step *inside* an update -- forked incarnations, real _exit.
+enumerate_updates -- crash at every I/O step *inside* an update (C07, level fault_enumeration).
+What was built, and why it deviates from "one fork + os._exit(137) per step":
+  * measured in this VM a fork of the warmed run process costs 0.3-0.9 s of copy-on-write page faults
+    as soon as the child executes anything (2 forks per crash point = 60 s for ONE update of two
+    values).  A kill leaves behind exactly the files as the kernel sees them at that instant: data
+    still in user-space buffers is lost, nothing is committed, nothing is closed.  That state can be
+    captured without killing anybody: *copy the store directory immediately before the step*.
+  * so, in an enumerated phase (normal clients, real chooser, real concurrency), the numbered I/O
+    wrappers of worlds/store_io.py call Imager.take() BEFORE every step -- worker side (mkstemp,
+    os.close, open, write, close, chmod, two digests) and pipeline side (exists, rename | unlink |
+    cross-device copy steps, table .dat/.dir open/write/close/chmod, the reply to the set) alike --
+    which copies db/, dbs/, stg/ into a crash image and snapshots the model with the value being
+    stored marked "may or may not be recorded".  Steps that changed nothing on disk since the
+    previous image share it (fingerprint of names, sizes, mtimes).
+  * after the phase every image is opened by a *new incarnation*: the real DBI.open() on the image
+    (the history's own handles are kept aside, worlds.store_env.swapped_store), which first reads
+    EVERYTHING back -- six tables, every key and value, both directories; an exception is the
+    violation store_unreadable -- and is then judged by the catalogue / model / store oracles.
+  * calibrate_real_kill: the equivalence "image before step k == what a real kill before step k
+    leaves" is itself tested in every third run: a forked victim runs one update on a copy under the
+    boring chooser, takes the image before step k and then REALLY dies -- os._exit(137) for a
+    pipeline-side step; for a worker-side step only the client dies (thread never released again, no
+    finally block runs, sockets reset), the pipeline sees the lost connection and is then ended with
+    a dirty _exit too.  Acknowledgements are written to a pipe as they happen.  The directory left
+    by the dead process must equal the image byte for byte (else: harness error), and is judged by
+    the same oracles.
 """
 
+import json
 import os
+import select
 import shutil
+import traceback
 
 from sim import core
 from worlds import store_env as env
-from worlds import store_model as sm
 
 
 def read_everything(w):
@@ -33,38 +59,15 @@ def read_everything(w):
     return cat
 
 
-def crash_in_process(w, mid_phase):
-    import dawgie.context as ctx
+def copy_store(src, dst):
+    for sub in ('db', 'dbs', 'stg'):
+        shutil.rmtree(os.path.join(dst, sub), ignore_errors=True)
+        shutil.copytree(os.path.join(src, sub), os.path.join(dst, sub))
+
+
+def post_crash_checks(w):
     import dawgie.db
 
-    sim = w.sim
-    w.faults['fault.pipeline_crash'] += 1
-    w.op('FAULT: the pipeline process is killed (dirty), a new one opens the store'
-         + (' while clients are at work' if mid_phase else ''))
-    if mid_phase:
-        w.probes['crash_while_clients_work'] += 1
-    for cl in w.clients:
-        if cl.alive:
-            w.kill_client(cl, count=False)
-    new = env.rundir()
-    for sub in ('db', 'dbs', 'stg'):
-        shutil.rmtree(os.path.join(new, sub))
-        shutil.copytree(os.path.join(w.dir, sub), os.path.join(new, sub))
-    env.abandon_db()
-    old, w.dir = w.dir, new
-    env.cleanup(old)
-    # everything that lived in the dead process is gone
-    del sim.timers[:]
-    sim._soon.clear()
-    sim.fromthread.clear()
-    for c in list(sim.conns):
-        c.q['c2s'].clear()
-        c.q['s2c'].clear()
-        c.client_gone = c.server_gone = True
-    del sim.conns[:]
-    sim.listeners.clear()
-    env.configure(new)
-    ctx.db_lock = False
     try:
         dawgie.db.open()
         read_everything(w)
@@ -80,5 +83,384 @@ def crash_in_process(w, mid_phase):
         store_c07.check_store(w, 'crash', crashed=True)
 
 
+def crash_in_process(w, mid_phase):
+    import dawgie.context as ctx
+
+    sim = w.sim
+    w.faults['fault.pipeline_crash'] += 1
+    w.op('FAULT: the pipeline process is killed (dirty), a new one opens the store'
+         + (' while clients are at work' if mid_phase else ''))
+    if mid_phase:
+        w.probes['crash_while_clients_work'] += 1
+    for cl in w.clients:
+        if cl.alive:
+            w.kill_client(cl, count=False)
+    new = env.rundir()
+    copy_store(w.dir, new)
+    env.abandon_db()
+    old, w.dir = w.dir, new
+    env.cleanup(old)
+    # everything that lived in the dead process is gone
+    del sim.timers[:]
+    sim._soon.clear()
+    sim.fromthread.clear()
+    for c in list(sim.conns):
+        c.q['c2s'].clear()
+        c.q['s2c'].clear()
+        c.client_gone = c.server_gone = True
+    del sim.conns[:]
+    sim.listeners.clear()
+    env.configure(new)
+    ctx.db_lock = False
+    post_crash_checks(w)
+
+
+# --------------------------------------------------------------------------
+# forked incarnations
+# --------------------------------------------------------------------------
+
+
+def fork_child(fn, timeout=40.0):
+    """fork; the child runs fn(write_fd) and never returns; -> (exit code, bytes written by the child)"""
+    r, wfd = os.pipe()
+    pid = os.fork()
+    if pid == 0:
+        code = 98
+        try:
+            os.close(r)
+            fn(wfd)
+            code = 0
+        except BaseException:  # noqa
+            try:
+                os.write(wfd, ('\nE' + json.dumps(traceback.format_exc()[-2500:]) + '\n').encode())
+            except Exception:  # noqa
+                pass
+            code = 99
+        finally:
+            os._exit(code)
+    os.close(wfd)
+    chunks = []
+    while True:
+        rd, _, _ = select.select([r], [], [], timeout)
+        if not rd:
+            try:
+                os.kill(pid, 9)
+            except ProcessLookupError:
+                pass
+            os.waitpid(pid, 0)
+            os.close(r)
+            raise core.HarnessError('forked incarnation timed out')
+        b = os.read(r, 1 << 16)
+        if not b:
+            break
+        chunks.append(b)
+    os.close(r)
+    _, status = os.waitpid(pid, 0)
+    return os.waitstatus_to_exitcode(status), b''.join(chunks)
+
+
+def parse_report(data):
+    acks, info, crash = [], None, None
+    for line in data.decode(errors='replace').split('\n'):
+        if line.startswith('A'):
+            acks.append(line[1] == '1')
+        elif line.startswith('X'):
+            crash = line[1:]
+        elif line.startswith('J'):
+            info = json.loads(line[1:])
+        elif line.startswith('E'):
+            raise core.HarnessError('incarnation failed: ' + json.loads(line[1:]))
+    return acks, info, crash
+
+
+# --------------------------------------------------------------------------
+# crash images: one per I/O step
+# --------------------------------------------------------------------------
+
+
+def fingerprint(d):
+    out = []
+    for sub in ('db', 'dbs', 'stg'):
+        with os.scandir(os.path.join(d, sub)) as it:
+            for e in it:
+                st = e.stat()
+                out.append((sub, e.name, st.st_size, st.st_mtime_ns))
+    out.sort()
+    return tuple(out)
+
+
+def same_tree(a, b):
+    """byte-for-byte comparison of the three store directories; -> None or a description of the first difference"""
+    for sub in ('db', 'dbs', 'stg'):
+        la, lb = sorted(os.listdir(os.path.join(a, sub))), sorted(os.listdir(os.path.join(b, sub)))
+        if la != lb:
+            return f'{sub}: {sorted(set(la) ^ set(lb))}'
+        for f in la:
+            with open(os.path.join(a, sub, f), 'rb') as fa, open(os.path.join(b, sub, f), 'rb') as fb:
+                if fa.read() != fb.read():
+                    return f'{sub}/{f} differs'
+    return None
+
+
+class Imager:
+    """While armed, a crash image of the store is taken immediately BEFORE every numbered I/O step of every
+    update running in the phase -- worker side and pipeline side alike -- together with a copy of the model
+    in which the value being stored at that instant is marked uncertain.  The image is what a kill of the
+    process at that instant leaves behind: files as the kernel sees them (data still in user-space buffers
+    is NOT in the image, exactly as it is lost by a SIGKILL), nothing committed, nothing closed.
+    calibrate_real_kill() checks this equivalence against a real fork + os._exit(137)."""
+
+    def __init__(self, w):
+        self.w = w
+        self.images = []
+        self.n = 0
+        self.last = None
+        self.steps = 0
+
+    def arm(self):
+        from worlds import store_io as sio
+
+        sio.install('all')
+        sio.S.exdev = bool(self.w.cfg['exdev'])
+        sio.S.fail = self.w.disk_full if self.w.cfg['enospc'][0] else None
+        sio.S.on_step = self.take
+        sio.S.active = True
+
+    def disarm(self):
+        from worlds import store_io as sio
+
+        sio.S.on_step = None
+        self.w.restore_io()
+
+    def take(self, side, label):
+        import copy
+
+        w = self.w
+        self.steps += 1
+        w.crash_points += 1
+        w.probes['crash_point'] += 1
+        w.probes['crash_point_worker_side' if side == 'W' else 'crash_point_pipeline_side'] += 1
+        inflight = []
+        for cl in w.clients:
+            op = cl.cur
+            bot = op.get('bot') if op else None
+            if bot is not None and bot._nack < len(bot._intents) and not cl.killed:
+                inflight.append(bot._intents[bot._nack])
+                if bot._nack > 0:
+                    w.probes['crash_between_values_of_one_update'] += 1
+        if label.startswith('table.prime'):
+            w.probes['crash_between_move_and_record'] += 1
+        if label.startswith(('move.blob', 'move.file', 'move.sendfile', 'move.unlink', 'move.chmod', 'move.utime')):
+            w.probes['crash_inside_cross_device_copy'] += 1
+        key = (fingerprint(w.dir), w.model.acked, w.model.uncertain, tuple(i.brief() for i in inflight))
+        if key == self.last:
+            w.probes['crash_point_same_image_as_previous'] += 1
+            return
+        self.last = key
+        if len(self.images) >= w.cfg['max_images']:
+            w.probes['crash_image_budget_exhausted'] += 1
+            return
+        self.n += 1
+        img = f'{w.dir}-i{self.n:04d}'
+        os.makedirs(img)
+        copy_store(w.dir, img)
+        model = copy.deepcopy(w.model)
+        for it in inflight:
+            model.maybe(it)
+        seen = {t: dict(d) for t, d in w.seen_ids.items()}
+        self.images.append((img, model, f'{side}:{label}', '; '.join(i.brief() for i in inflight) or 'no update in flight', seen))
+
+    def check_all(self):
+        w = self.w
+        imgs, self.images = self.images, []
+        try:
+            for img, model, label, text, seen in imgs:
+                verdict = check_image(w, img, model, seen)
+                w.probes['crash_image_checked'] += 1
+                w.sim.log('crashpoint', f'{label}:{len(verdict)}')
+                for v in verdict:
+                    w.violate(v['property'], v['rule'], f"{v['signature']}@{label}",
+                              f'crash immediately before I/O step {label} while storing [{text}]: ' + v['message'], fatal=False)
+                if w.stopped:
+                    break
+        finally:
+            for rec in imgs:
+                shutil.rmtree(rec[0], ignore_errors=True)
+
+    def drop(self):
+        for rec in self.images:
+            shutil.rmtree(rec[0], ignore_errors=True)
+        self.images = []
+
+
+def check_image(w, img, model, seen=None):
+    """a new incarnation opens the crashed store (the real DBI.open on the image), reads EVERYTHING back and
+    is judged by the catalogue / model / store oracles; -> list of violations"""
+    import collections
+    import copy
+
+    saved = dict(model=w.model, seen_ids=w.seen_ids, violations=w.violations, vcount=w.vcount, stopped=w.stopped,
+                 stop_on=w.stop_on, probes=w.probes, faults=w.faults, ops=w.ops)
+    w.model, w.seen_ids = model, (seen if seen is not None else copy.deepcopy(w.seen_ids))
+    w.violations, w.vcount, w.stopped, w.stop_on = [], collections.Counter(), False, set()
+    w.probes, w.faults, w.ops = collections.Counter(), collections.Counter({'fault.crash_point': 1}), []
+    try:
+        try:
+            with env.swapped_store(img):
+                read_everything(w)
+                w.check_catalogue('crash', reopened=True, crashed=True)
+                w.audit('crash')
+                from worlds import store_c07
+
+                store_c07.check_store(w, 'crash', crashed=True)
+        except core.HarnessError:
+            raise
+        except Exception as e:  # noqa
+            tb = traceback.extract_tb(e.__traceback__)
+            here = os.path.dirname(os.path.abspath(__file__))
+            if tb and tb[-1].filename.startswith(here):
+                raise
+            w.violate('C07', 'store_unreadable', type(e).__name__, f'after the crash the store cannot be read back: {e!r}')
+        out = list(w.violations)
+        keep = {k: v for k, v in w.probes.items() if k.startswith(('name_lost', 'staging_leftover', 'temporary_file'))}
+    finally:
+        for k, v in saved.items():
+            setattr(w, k, v)
+    w.probes.update(keep)
+    return out
+
+
+# --------------------------------------------------------------------------
+# calibration against a real kill
+# --------------------------------------------------------------------------
+
+
+def run_victim(w, op, dirk, k, wfd):
+    """child process: run `op` on the copy `dirk` under the boring chooser; immediately before I/O step k take
+    the crash image, then really die: os._exit(137) for a pipeline-side step; for a worker-side step only the
+    client dies (thread never released again, sockets reset), the pipeline sees the lost connection and is
+    then ended by a dirty _exit as well"""
+    import dawgie.db
+    from worlds import store
+    from worlds import store_io as sio
+
+    sim = w.sim
+    env.abandon_db()
+    ch0 = core.Chooser(replay=[])
+    w.ch = ch0
+    env.reinit(sim, ch0)
+    w._patch_observers()
+    w.dir = dirk
+    env.configure(dirk)
+    w.planned = []
+    w.stopped = False
+    w.stop_on = set()
+    w.imager = None
+    dawgie.db.open()
+    sio.install('all')
+    sio.S.reset()
+    sio.S.exdev = bool(w.cfg['exdev'])
+    sio.S.crash_at = k
+    cl = store.Client(w, 0, 'victim', [op])
+    w.clients = [cl]
+
+    def on_crash(side, label):
+        sio.S.crash_at = None
+        os.makedirs(dirk + '-img')
+        copy_store(dirk, dirk + '-img')
+        os.write(wfd, f'X{side}:{label}\n'.encode())
+        if side == 'P':
+            os._exit(137)
+        th = core.current_thread()
+        th.dead = True  # the client process is gone; the main thread resets its sockets at the end of this step
+        th.park(label='crashed')
+
+    sio.S.on_crash = on_crash
+    w.acks_log = lambda it, isnew: os.write(wfd, b'A1\n' if isnew else b'A0\n')
+    sim.after_step.append(w.after_step)
+    sio.S.active = True
+    cl.thread = sim.spawn('victim', lambda: w.client_main(cl))
+    w.phase_start = sim.steps
+    r = sim.run(until=lambda: not cl.alive, max_steps=sim.steps + 20000)
+    w.after_step('end', '')
+    w.drain()
+    done = bool(cl.thread.done and not op.get('exc') and r == 'until')
+    os.write(wfd, ('J' + json.dumps(dict(n=sio.S.count, done=done, exc=repr(op.get('exc')), r=r)) + '\n').encode())
+    os._exit(0)  # dirty: nothing is closed or committed
+
+
+def calibrate_real_kill(w):
+    """one real fork + kill: the directory left behind by the dead process must equal, byte for byte, the
+    image taken immediately before the step at which it was killed; the dead store is then judged like any
+    other crash image"""
+    import copy
+
+    ch = w.ch
+    op = w.gen_client_op(force='update')
+    op['msv'] = False
+    k = 1 + ch.choose('cal.k', 48)
+    intents = w.intents_of(op)
+    dk = f'{w.dir}-kill'
+    shutil.rmtree(dk, ignore_errors=True)
+    shutil.rmtree(dk + '-img', ignore_errors=True)
+    for sub in ('db', 'dbs', 'stg', 'logs', 'fe', 'ae/vae'):
+        os.makedirs(os.path.join(dk, sub))
+    copy_store(w.dir, dk)
+    try:
+        code, data = fork_child(lambda fd: run_victim(w, op, dk, k, fd))
+        acks, info, crash = parse_report(data)
+        if crash is None:
+            if info is None or not info['done']:
+                raise core.HarnessError(f'calibration victim neither crashed nor completed: code={code} info={info}')
+            w.probes['real_kill_after_last_step'] += 1
+            return
+        diff = same_tree(dk, dk + '-img')
+        if diff:
+            raise core.HarnessError(f'crash image taken before step {k} ({crash}) differs from what the real kill left: {diff}')
+        w.probes['real_kill_equals_image'] += 1
+        w.probes['real_kill_pipeline_side' if crash.startswith('P') else 'real_kill_worker_side'] += 1
+        model = copy.deepcopy(w.model)
+        saved_model, w.model = w.model, model
+        try:
+            for i, isnew in enumerate(acks):
+                w.judge_novelty(intents[i], isnew)
+                model.ack(intents[i])
+        finally:
+            w.model = saved_model
+        if len(acks) < len(intents):
+            model.maybe(intents[len(acks)])
+        w.op(f'REAL KILL before I/O step {k} ({crash}) of a copy running [{w.describe(op)}]: {len(acks)} values acknowledged; '
+             f'directory equals the crash image')
+        w.crash_points += 1
+        w.sim.log('realkill', f'{k}:{crash}:{len(acks)}')
+        for v in check_image(w, dk, model):
+            w.violate(v['property'], v['rule'], f"{v['signature']}@{crash}",
+                      f'real kill before I/O step {crash} of [{w.describe(op)}] after {len(acks)} acknowledged values: ' + v['message'], fatal=False)
+    finally:
+        shutil.rmtree(dk, ignore_errors=True)
+        shutil.rmtree(dk + '-img', ignore_errors=True)
+
+
 def enumerate_updates(w):
-    raise core.HarnessError('not built yet')
+    """the enumerated phases: every I/O step of every update is a crash point"""
+    cfg = w.cfg
+    for _ in range(cfg['enum']):
+        w.between()
+        w.check_stop()
+        w.imager = Imager(w)
+        w.imager.arm()
+        try:
+            w.phase(mix=cfg['mix_enum'], max_clients=cfg['enum_clients'], msv=False)
+        finally:
+            w.imager.disarm()
+        try:
+            w.check_stop()
+            w.imager.check_all()
+        finally:
+            w.imager.drop()
+            w.imager = None
+        w.check_stop()
+        w.check_all('after-enumerated-phase')
+        w.check_stop()
+    if w.ch.flip('cal.real_kill', *cfg['real_kill']):
+        calibrate_real_kill(w)
